@@ -78,6 +78,15 @@ func c05Decl(r *Rng) *DeclSpec {
 			if (o.Kind == "string" || o.Kind == "[]string") && len(o.Choices) == 0 && len(o.Default) > 0 && xr.Chance(1, 8) {
 				o.Default[0] = BStr(xr.Pick([]string{"$5.00", "${name}", "$USER> ", "100%", "a$b"})) // a default tag is taken as written
 			}
+			// an empty default tag is a default like any other: the empty string
+			if er := xr.Fork("emptydef" + o.Field); len(o.Choices) == 0 && !o.Required && er.Chance(1, 8) {
+				switch {
+				case o.Kind == "string" || o.Kind == "*string":
+					o.Default = []BStr{""}
+				case o.Kind == "[]string" && len(o.Default) > 0:
+					o.Default = append(o.Default, "")
+				}
+			}
 			// env on more options, delimiters on multi-valued ones
 			if o.Env == "" && !isFuncKind(o.Kind) && xr.Chance(1, 3) {
 				o.Env = "E_X_" + strings.ToUpper(o.Field)
